@@ -1,4 +1,5 @@
 """C10 — meaning does not depend on size (DESIGN.md §4 C10)."""
+import os
 import re
 from . import common
 
@@ -6,7 +7,7 @@ LEAN_TARGETS = ["TsrunVerif.Props.C10"]
 P = "TsrunVerif.RegAlloc."
 THEOREMS = [P + t for t in [
     "inv_init", "alloc_fresh", "free_inv", "reserve_fresh", "window_sound", "oversize_refused",
-    "saved_stack", "stmt_neutral", "restore_inv", "addConstant_sound", "addDedup_sound", "index_stable"]]
+    "saved_stack", "stmt_neutral", "restore_inv", "addConstant_sound", "addDedup_sound", "index_stable"]] + ["TsrunVerif.Gen.narrowing_reviewed"]
 ASSUMPTIONS = [
     "M-RegAlloc transcribes RegisterAllocator::{alloc,free,reserve_range,save,restore}, BytecodeBuilder::{reserve_registers_for,add_constant,add_number,add_string}; "
     "it is compared with the real builder on random operation sequences (every result, next and max_used after every op, final pool contents)",
@@ -246,6 +247,11 @@ def sizes(tier):
     if tier != "quick":
         base = sorted(set(base + list(range(0, 601, 1))))
     return base
+
+
+def pre_proof(ctx):
+    rc, out = common.sh([os.path.join(common.ROOT, "bin", "extract")])
+    ctx.notes.append("bin/extract: " + out.strip())
 
 
 def run(ctx):
